@@ -75,7 +75,7 @@ OPAQUE_NAMES = {'Arguments', 'Argument', 'AssertKind', 'Formatter', 'str', 'Erro
 
 def parse_type(t):
     t = strip_lifetimes(t.strip())
-    if t in ('usize', 'isize', 'bool', 'u8', 'u32', 'u64'): return ('prim', t)
+    if t in ('usize', 'isize', 'bool', 'u8', 'u32', 'u64', 'i8'): return ('prim', t)
     if t == '()': return ('prim', 'unit')
     if t == '!': return ('prim', 'unit')
     if t in TOK_PARAMS: return ('tok',)
@@ -147,7 +147,8 @@ class CTypes:
     def of(s, t):
         t = peel(t); k = t[0]
         if k == 'prim':
-            return {'usize': 'size_t', 'isize': 'long', 'bool': '_Bool', 'u8': 'unsigned char',
+            return {'usize': 'size_t', 'isize': 'long', 'bool': '_Bool', 'u8': 'unsigned char', 'i8': 'unsigned char',   # i8: enum discriminants only (compared with 255 for -1)
+                    
                     'u32': 'unsigned', 'u64': 'unsigned long', 'unit': 'unit_t'}[t[1]]
         if k == 'tok': return 'tok_t'
         if k == 'opaque': return 'opaque_t'
